@@ -123,12 +123,15 @@ func (s *sched) pick(from *thread, fromCanContinue bool) *thread {
 	if !s.explore || len(en) == 1 {
 		return en[0]
 	}
-	if fromCanContinue && s.bound >= 0 && s.preemptions >= s.bound {
-		return from
+	// delay-bounded exploration: the default scheduler continues the current thread, or, when it
+	// cannot continue, runs the enabled thread with the lowest id; every deviation from that
+	// default (a preemption, or a non-default choice at a blocking point) costs one delay.
+	if s.bound >= 0 && s.preemptions >= s.bound {
+		return en[0]
 	}
 	s.nsched++
 	i := s.in.r.choose(len(en), 's')
-	if fromCanContinue && i != 0 {
+	if i != 0 {
 		s.preemptions++
 	}
 	return en[i]
